@@ -157,7 +157,8 @@ impl SerialPortInfo {
             clock_frequency: 0.into(),
             precise_baud: 0.into(),
             namespace_string_len: 2.into(),
-            namespace_string_offset: (Self::len() as u16).into(),
+            // offset from the start of the table (header included)
+            namespace_string_offset: ((TableHeader::len() + Self::len()) as u16).into(),
         }
     }
 }
